@@ -27,6 +27,7 @@ package main
 import (
 	"bufio"
 	"fmt"
+	"hash/fnv"
 	"math/rand"
 	"os"
 	"sort"
@@ -186,13 +187,56 @@ type sim struct {
 	hadNodes map[int]uint64
 }
 
-func keyID(b []byte) int { return int(b[0] - 'a') }
+func keyID(b []byte) int {
+	if len(b) > 2 {
+		return (len(b) - 2) / 2 // chained naming: every key extends the previous one by two bytes
+	}
+	return int(b[0] - 'a')
+}
+
+// chained naming: key id n is key id n-1 followed by two salt bytes, so that every key is a strict prefix of the
+// next ones (byte order = id order still holds, the real slotID still equals the wanted pattern). The latch code
+// must treat keys as whole byte strings; which naming a case uses is derived from its spec and invisible to the model.
+func keyBytesChain(l *latch.Latches, prev []byte, id int, want int) []byte {
+	n := l.VNumSlots()
+	if id == 0 {
+		for s := 0; s < 256; s++ {
+			b := []byte{'a', byte(s)}
+			if l.VSlotID(b) == want%n {
+				return b
+			}
+		}
+		panic("no salt")
+	}
+	for s := 0; s < 65536; s++ {
+		b := append(append([]byte{}, prev...), byte(s>>8), byte(s))
+		if l.VSlotID(b) == want%n {
+			return b
+		}
+	}
+	panic("no salt")
+}
+
+func chained(c *config) bool {
+	h := fnv.New32a()
+	h.Write([]byte(c.spec()))
+	return h.Sum32()%2 == 0
+}
 
 func newSim(c *config, npass map[string]int) *sim {
 	s := &sim{cfg: c, idx: map[*latch.Lock]int{}, liveMax: map[int]uint64{}, npass: npass, hadNodes: map[int]uint64{}}
 	s.lat = latch.VNewLatches(uint(c.size))
+	chain := chained(c)
 	for id := range c.pat {
-		s.kb = append(s.kb, keyBytes(s.lat, c.size, id, c.pat[id]))
+		if chain {
+			var prev []byte
+			if id > 0 {
+				prev = s.kb[id-1]
+			}
+			s.kb = append(s.kb, keyBytesChain(s.lat, prev, id, c.pat[id]))
+		} else {
+			s.kb = append(s.kb, keyBytes(s.lat, c.size, id, c.pat[id]))
+		}
 	}
 	for i, t := range c.txns {
 		var ks [][]byte
